@@ -185,6 +185,7 @@ func c18Client(res *vlib.Result, path string, remote bool, peer string, variant 
 		if variant == "answer-fail" {
 			ans = -1
 		}
+		_ = c18Label
 		_ = p.sendMsg(refcodec.EncInt(ans), false)
 	}()
 	var cerr error
@@ -198,7 +199,13 @@ func c18Client(res *vlib.Result, path string, remote bool, peer string, variant 
 				ce.Close()
 			}
 		}()
-		cerr = security.VerifFSClient(ctx, stream.NewStream(ce), remote)
+		st := stream.NewStream(ce)
+		if strings.HasPrefix(variant, "labelled-") {
+			// the stream carries a peer LABEL (what was dialled: a broker's or shared port's address)
+			// that differs from the endpoint the socket is really connected to
+			st.SetPeerAddr("<" + c18Label + ">")
+		}
+		cerr = security.VerifFSClient(ctx, st, remote)
 		ce.Close()
 	}()
 	wg.Wait()
@@ -244,7 +251,7 @@ func c18Client(res *vlib.Result, path string, remote bool, peer string, variant 
 			_ = os.RemoveAll(strings.Fields(a)[0])
 		}
 	}
-	if variant == "answer-ok" && mid != nil {
+	if (variant == "answer-ok" || variant == "labelled-answer-ok") && mid != nil {
 		if (cerr == nil) != (clientResult == 0 || true) && false {
 			_ = cerr
 		}
@@ -362,12 +369,15 @@ func c18Server(res *vlib.Result, obj string, remote bool) {
 	res.Outcome(fmt.Sprintf("server-%s-accepted=%v", obj, serr == nil))
 }
 
+// c18Label: a peer label some runs put on the stream; names qualified with IT do not name the live endpoint
+const c18Label = "10.77.7.7:4321"
+
 func c18Paths(peer string, thorough bool) []string {
 	h, p, _ := net.SplitHostPort(peer)
 	bases := []string{"/tmp", "/tmp/", "//tmp", "/tmp/.", "/tmp/../tmp", "/var/tmp", "/tmp/sub", "/tmp/link", "tmp", "", "/proc/self/root/tmp", "/proc/self/cwd/../../../../tmp", filepath.Join(c18Setup().decoy, "totmp")}
 	leaves := []string{"FS_1", "FS_XXXjlv9Zj", "FS_", "FS_abcdefghij1234567", "FS_abcdefghij123456", "fs_1", "FS-1", "FS_1.2", "FS_a_b", ".X11-unix", "..", ".", "FS_1/../x", "FS_1\x01x", "FS_é", "FS_" + strings.Repeat("a", 5000), "FS_REMOTE_h_1_a", "FS_REMOTE_host.example.org_123_abc", "FS_REMOTE_1"}
-	ips := []string{h, "10.9.9.9", "fd00::2", "::ffff:10.2.2.2", "hostname", "[::1]", "fd00::3", "::1", "2001:db8::1", "fd00:0:0:0:0:0:0:2", "10.2.2.3", "::ffff:10.9.9.9"}
-	ports := []string{p, "1", "0", "65536", "123456"}
+	ips := []string{h, "10.77.7.7", "10.9.9.9", "fd00::2", "::ffff:10.2.2.2", "hostname", "[::1]", "fd00::3", "::1", "2001:db8::1", "fd00:0:0:0:0:0:0:2", "10.2.2.3", "::ffff:10.9.9.9"}
+	ports := []string{p, "4321", "1", "0", "65536", "123456"}
 	for _, ip := range ips {
 		for _, po := range ports {
 			leaves = append(leaves, fmt.Sprintf("FS_%s_%s_abc", ip, po), fmt.Sprintf("FS_REMOTE_%s_%s_abc", ip, po))
@@ -408,7 +418,7 @@ func c18Paths(peer string, thorough bool) []string {
 func C18Plan() *vlib.Plan {
 	p := &vlib.Plan{
 		Property: "C18", Level: "exploration", Workers: 1, Quiet: true,
-		Rule:   "E-ENUM in a private mount namespace (fresh tmpfs on /tmp): paths = base in {/tmp, /tmp/, //tmp, /tmp/., /tmp/../tmp, /var/tmp, /tmp/sub, /tmp/link (symlink to a decoy dir), tmp, '', /proc/self/root/tmp, a symlink elsewhere that resolves to /tmp} x leaf in {recognised and near-miss names, '.', '..', traversal, control and non-ASCII bytes, 5000 chars, remote forms, address forms over 12 ip spellings (the peer's own, other v4 / v6 hosts, equivalent long and v4-mapped spellings, a host name, a bracketed form) x 5 ports} (+ every single-character mutation of two accepted paths in thorough) x peer address {v4, v6} x {local, remote} x scripted server {answers 0, answers -1, closes after the path, closes after reading the client's answer (no verdict), trailing bytes}; recursive snapshots of /tmp + scratch CWD + decoy dirs + the directory $TMPDIR points to (set to somewhere other than /tmp) before / when the server holds the client's answer / after. Oracle: independent path validator written from the statement; at most one directory, only for acceptable paths, mode 0700, answer 0 iff created, snapshot restored afterwards, client nil iff server answered 0. Plus the whole method loop of a client handshake (method lists [FS], [FS,CLAIMTOBE], [CLAIMTOBE,FS], [FS,TOKEN,CLAIMTOBE]) against a scripted server that selects FILESYSTEM in every round and declares each attempt failed: at most one directory per authentication, nothing left behind. Server half (accept only the real owner-only directory, record its owner, record NOTHING for a refused object) against {nothing, dir 0700, dir 0755, dir 0500, dir of another uid, dir with a sub-directory, regular file, symlink to dir / file, fifo}. Non-trivial = every exchange (distinct by construction).",
+		Rule:   "E-ENUM in a private mount namespace (fresh tmpfs on /tmp): paths = base in {/tmp, /tmp/, //tmp, /tmp/., /tmp/../tmp, /var/tmp, /tmp/sub, /tmp/link (symlink to a decoy dir), tmp, '', /proc/self/root/tmp, a symlink elsewhere that resolves to /tmp} x leaf in {recognised and near-miss names, '.', '..', traversal, control and non-ASCII bytes, 5000 chars, remote forms, address forms over 12 ip spellings (the peer's own, other v4 / v6 hosts, equivalent long and v4-mapped spellings, a host name, a bracketed form) x 5 ports} (+ every single-character mutation of two accepted paths in thorough) x peer address {v4, v6} x {local, remote} x scripted server {answers 0, answers 0 to a client whose stream carries a peer label different from the socket's real peer, answers -1, closes after the path, closes after reading the client's answer (no verdict), trailing bytes}; recursive snapshots of /tmp + scratch CWD + decoy dirs + the directory $TMPDIR points to (set to somewhere other than /tmp) before / when the server holds the client's answer / after. Oracle: independent path validator written from the statement; at most one directory, only for acceptable paths, mode 0700, answer 0 iff created, snapshot restored afterwards, client nil iff server answered 0. Plus the whole method loop of a client handshake (method lists [FS], [FS,CLAIMTOBE], [CLAIMTOBE,FS], [FS,TOKEN,CLAIMTOBE]) against a scripted server that selects FILESYSTEM in every round and declares each attempt failed: at most one directory per authentication, nothing left behind. Server half (accept only the real owner-only directory, record its owner, record NOTHING for a refused object) against {nothing, dir 0700, dir 0755, dir 0500, dir of another uid, dir with a sub-directory, regular file, symlink to dir / file, fifo}. Non-trivial = every exchange (distinct by construction).",
 		Assume: []string{"runs inside `unshare -m` with a tmpfs on /tmp when available (evidence field namespace); as root"},
 	}
 	p.Gen = func(tier string, yield func(vlib.Case)) {
@@ -418,7 +428,7 @@ func C18Plan() *vlib.Plan {
 		for _, peer := range []string{"10.2.2.2:9618", "[fd00::2]:9618"} {
 			paths := c18Paths(peer, thorough)
 			for _, remote := range []bool{false, true} {
-				for _, variant := range []string{"answer-ok", "answer-fail", "close-after-path", "close-after-answer", "trailing"} {
+				for _, variant := range []string{"answer-ok", "labelled-answer-ok", "answer-fail", "close-after-path", "close-after-answer", "trailing"} {
 					if variant != "answer-ok" && !thorough && peer != "10.2.2.2:9618" {
 						continue
 					}
